@@ -132,6 +132,10 @@ impl BBSplusPoKSignature {
 
         let challenge = m_cap.pop().ok_or(Error::InvalidProofOfKnowledgeSignature)?; //at least the challenge should be present (even if all attributes are disclosed)
 
+        if bool::from(Abar.is_identity() | Bbar.is_identity() | D.is_identity()) {
+            return Err(Error::InvalidProofOfKnowledgeSignature);
+        }
+
         Ok(Self {
             Abar,
             Bbar,
@@ -874,6 +878,13 @@ where
     let R = disclosed_indexes.len();
 
     let L = U + R;
+
+    // a proof whose points are the identity does not depend on the signer's key
+    if bool::from(proof.Abar.is_identity() | proof.Bbar.is_identity() | proof.D.is_identity()) {
+        return Err(Error::PoKSVerificationError(
+            "identity point in proof".to_owned(),
+        ));
+    }
 
     for &i in disclosed_indexes {
         if i > L - 1 {
